@@ -111,3 +111,95 @@ func RunPlatformTables(w *World, r *Report) {
 	}
 	r.OK("platformtables", key, w.Pos(pos[tgts[0]]), "the tables stored into the platform maps have disjoint origins")
 }
+
+// RunNameEncodingID: (*name.Info).Encode writes the Windows records with the
+// encoding id it is given; name.Decode understands the Windows records of
+// certain encoding ids only. Every caller inside the library passes an id the
+// decoder understands, or the names it wrote come back from the (lossy)
+// Macintosh records or not at all.
+func RunNameEncodingID(w *World, r *Report) {
+	r.Rule("nameencid: every encoding id that a call of (*name.Info).Encode inside the library can pass (a constant, or a phi of constants) is one of the constants name.Decode compares the encoding id of a record with on a path where the platform id has been found equal to 3")
+	dec := w.Func("name.Decode")
+	if dec == nil {
+		r.Fatal("name.Decode does not resolve")
+		return
+	}
+	accepted := map[int64]bool{}
+	for _, b := range dec.Blocks {
+		if len(b.Instrs) == 0 {
+			continue
+		}
+		ifi, ok := b.Instrs[len(b.Instrs)-1].(*ssa.If)
+		if !ok {
+			continue
+		}
+		cmp, ok := ifi.Cond.(*ssa.BinOp)
+		if !ok || cmp.Op != token.EQL {
+			continue
+		}
+		k, ok := cmp.Y.(*ssa.Const)
+		if !ok || k.Value == nil {
+			continue
+		}
+		for _, g := range guardsOf(b) {
+			pc, ok := g.cond.(*ssa.BinOp)
+			if !ok || pc.Op != token.EQL || !g.then || pc.X == cmp.X {
+				continue
+			}
+			if c3, ok := pc.Y.(*ssa.Const); ok && c3.Value != nil && c3.Int64() == 3 {
+				accepted[k.Int64()] = true
+			}
+		}
+	}
+	if len(accepted) == 0 {
+		r.Fail("nameencid", r.MkKey("nameencid", "name.Decode", "accepted Windows encoding ids"), w.Pos(dec.Pos()), "no comparison of an encoding id under platform id 3 found in name.Decode", nil)
+		return
+	}
+	n := 0
+	for _, fn := range w.LibFuncs() {
+		for _, b := range fn.Blocks {
+			for _, in := range b.Instrs {
+				call, ok := in.(*ssa.Call)
+				if !ok {
+					continue
+				}
+				callee := call.Common().StaticCallee()
+				if callee == nil || fnName(callee) != "(*name.Info).Encode" || len(call.Common().Args) != 2 {
+					continue
+				}
+				n++
+				key := r.MkKey("nameencid", fnName(fn), "call of (*name.Info).Encode")
+				bad := ""
+				seen := map[ssa.Value]bool{}
+				var visit func(v ssa.Value)
+				visit = func(v ssa.Value) {
+					if seen[v] {
+						return
+					}
+					seen[v] = true
+					switch x := v.(type) {
+					case *ssa.Const:
+						if x.Value == nil || !accepted[x.Int64()] {
+							bad = "encoding id " + x.String()
+						}
+					case *ssa.Phi:
+						for _, e := range x.Edges {
+							visit(e)
+						}
+					default:
+						bad = "an encoding id that is not a constant"
+					}
+				}
+				visit(call.Common().Args[1])
+				if bad == "" {
+					r.OK("nameencid", key, w.Pos(call.Pos()), "passes an encoding id name.Decode understands")
+				} else {
+					r.Fail("nameencid", key, w.Pos(call.Pos()), "the Windows name records can be written with "+bad+", which name.Decode does not decode (it understands platform 3 with the ids it tests for only): the strings come back from the Macintosh records, with every character outside Mac Roman replaced, or not at all", nil)
+				}
+			}
+		}
+	}
+	if n == 0 {
+		r.Fail("nameencid", r.MkKey("nameencid", "library", "calls of (*name.Info).Encode"), "-", "no call of (*name.Info).Encode found in the library", nil)
+	}
+}
